@@ -99,7 +99,7 @@ def handleVis (op : String) : P String := do
       | "po" => pure (showExcept showState (fromVisibility visPartiallyOccluded s a))
       | "rt" => do
           let rays ← pRays
-          pure (showExcept showState (fromVisibility (fun g _ => .ok (visRaytracing g rays)) s a))
+          pure (showExcept showState (fromVisibility (visRaytracingChecked rays) s a))
       | "srt" => do
           -- stochastic: rays, then per cell (row-major) the float quotient and the uniform numerator
           let rays ← pRays
@@ -114,7 +114,8 @@ def handleVis (op : String) : P String := do
           let m : Mask := fun q =>
             let k := q.y.toNat * g.w + q.x.toNat
             shownStochastic (us.getD k 0) (ps.getD k ⟨0, 1⟩)
-          pure (showExcept showState (fromVisibility (fun _ _ => .ok m) s a))
+          pure (showExcept showState (fromVisibility
+            (fun g p => if g.contains p then .ok m else .error .valueError) s a))
       | _ => failure
   | "premask" => do let s ← pState; let a ← pArea; pure (showGrid (premask s a))
   | _ => failure
